@@ -45,6 +45,8 @@ def gen_s2(rng, n=None):
     script = gen.gen_script(rng, boards, style=rng.choice(('allpass', 'allpass', 'short',
                                                            'competitive')))
     return {'family': 'S2', 'boards': boards, 'script': script, 'requests': gen_requests(rng, n),
+            # now and then the same process has run another table before (see gen.gen_prelude)
+            'prelude': gen.gen_prelude(rng) if rng.random() < 0.1 else None,
             'teams': None, 'table': 'admission', 'decision_seed': rng.randrange(1 << 40),
             'filler_kind': rng.choice(('scripted', 'bundled'))}
 
@@ -311,14 +313,14 @@ def check_c20(run, an):
         if seats['N'] != seats['S'] or seats['E'] != seats['W']:
             an.add('C20', 'model', 'internal: admission model seated mismatching partners')
     # the server kept accepting until the table was complete, and the first board started
-    if not complete and run.outcome != 'finished':
+    if not complete and (run.outcome != 'finished' or run.server_exc is not None):
         pending = [v for v in views.values() if v.accept_index is None]
         an.add('C20', 'stopped-accepting',
                f'the table never became complete (seated: '
                f'{ {s: t for s, t in seats.items() if t is not None} }); run ended {run.outcome} '
                f'with {len(pending)} request(s) never accepted; blocked: '
                f'{run.sim.blocked_final[:4]}', key='stopped-accepting:' + run.outcome)
-    if complete and run.outcome == 'deadlock':
+    if complete and (run.outcome == 'deadlock' or run.server_exc is not None):
         started = sum(1 for s in rb.SEATS if s in an.seated and
                       any(t[0] == 'START' for _, _, t in an.seated[s].s2c))
         if started < 4:
